@@ -6,3 +6,5 @@
    (= (select (wrOwnerEarned r o c n) k) (select r k))) :pattern ((select (wrOwnerEarned r o c n) k)))))
 (assert (forall ((r (Array Key Bytes)) (s (Array Key Bytes)) (p Prefix) (n Int) (k Key)) (! (=> (and (>= n 0) (not (is-KEarned k)))
    (= (select (clrProv r s p n) k) (select r k))) :pattern ((select (clrProv r s p n) k)))))
+(assert (forall ((r (Array Key Bytes)) (p Bytes) (c (Slice Coin)) (n Int) (d Str)) (! (=> (>= n 0) (= (sumDep (wrEarned r p c n) d) (sumDep r d))) :pattern ((sumDep (wrEarned r p c n) d)))))
+(assert (forall ((r (Array Key Bytes)) (o Bytes) (c (Slice Coin)) (n Int) (d Str)) (! (=> (>= n 0) (= (sumDep (wrOwnerEarned r o c n) d) (sumDep r d))) :pattern ((sumDep (wrOwnerEarned r o c n) d)))))
